@@ -4,8 +4,8 @@ import (
 	"bytes"
 	"errors"
 	"fmt"
-	"runtime"
 	"os"
+	"runtime"
 	"strconv"
 	"unsafe"
 
@@ -65,7 +65,11 @@ func c02(c *core.Ctx) {
 			"UnmarshalBinary": func(m *stun.Message, b []byte) error { return m.UnmarshalBinary(b) },
 			"GobDecode":       func(m *stun.Message, b []byte) error { return m.GobDecode(b) },
 			"CloneTo":         func(m *stun.Message, b []byte) error { return (&stun.Message{Raw: b}).CloneTo(m) },
-			"ReadFrom":        func(m *stun.Message, b []byte) error { m.Raw = make([]byte, 0, 64); _, err := m.ReadFrom(bytes.NewReader(b)); return err },
+			"ReadFrom": func(m *stun.Message, b []byte) error {
+				m.Raw = make([]byte, 0, 64)
+				_, err := m.ReadFrom(bytes.NewReader(b))
+				return err
+			},
 		}
 		for name, e := range entries {
 			for _, in := range inputs {
